@@ -7,7 +7,9 @@ universe); larger ones are sampled.
 """
 import copy
 import itertools
+import json
 import random
+import zlib
 
 from .. import cfggen
 from .. import common
@@ -20,7 +22,7 @@ _SHARED = {}   # per worker process: component shape -> (parsed model, Builder)
 WILD = ['ALL', 'NONE', 'REMAINING']
 
 
-def component_model(provides, requires, injected):
+def component_model(provides, requires, injected, order=0):
     """A tiny model: one interface, a component C with the given port names."""
     itf = M.Interface(['I'], [], [
         M.Event('go', 'in', M.Ref(['bool']), [M.Formal('x', M.Ref(['T'], 'T'), 'in')]),
@@ -28,6 +30,8 @@ def component_model(provides, requires, injected):
     ports = [M.Port(n, M.Ref(['I'], 'N.I'), 'provides') for n in provides]
     ports += [M.Port(n, M.Ref(['N', 'I'], 'N.I'), 'requires') for n in requires]
     ports += [M.Port(n, M.Ref(['I'], 'N.I'), 'requires', injected=True) for n in injected]
+    # the order in which a component declares its ports is an input: directions interleaved
+    random.Random(order).shuffle(ports)
     return M.Model([M.Extern(['T'], 'int'),
                     M.Namespace(['N'], [itf, M.Component(['C'], ports)])])
 
@@ -73,14 +77,16 @@ def eval_case(case: dict) -> dict:
         got_map = {k: ('STS' if v.name == 'STS' else 'MTS') for k, v in matched.value.items()}
         cnt['match_calls'] = 1
         if case['level'] == 'build':
-            shape = (tuple(case['provides']), tuple(case['requires']), tuple(case['injected']))
+            shape = (tuple(case['provides']), tuple(case['requires']), tuple(case['injected']),
+                     case.get('port_order', 0))
             if case.get('shared') and shape in _SHARED:
                 # one Builder and one parsed model serving many configurations in a row
                 fc, builder = _SHARED[shape]
                 cnt['builds_on_reused_builder_and_model'] = 1
             else:
                 fc = shellbuild.parse_doc(M.to_json(component_model(
-                    case['provides'], case['requires'], case['injected'])))
+                    case['provides'], case['requires'], case['injected'],
+                    order=case.get('port_order', 0))))
                 from dznpy.adv_shell import Builder  # pylint: disable=import-outside-toplevel
                 builder = Builder()
                 _SHARED[shape] = (fc, builder)
@@ -246,6 +252,7 @@ def _worker(chunk):
     before = dict(shellbuild.STATS)
     for idx, case in enumerate(chunk):
         case = dict(case, shared=idx % 3 != 0)
+        case.setdefault('port_order', zlib.crc32(json.dumps(case, sort_keys=True).encode()) % 6)
         res = eval_case(case)
         for key, val in res['counts'].items():
             agg['counts'][key] = agg['counts'].get(key, 0) + val
